@@ -52,40 +52,59 @@ Fixpoint c_rows (fixed : bool) (p : profile) (sid : value) (probe : list key) (c
       (x, local c', c_view probe c') :: c_rows fixed p sid probe c' r
   end.
 
+Fixpoint cr_rows (p : profile) (sid : value) (probe : list key) (c : cloud) (ops : list op)
+  : list crow :=
+  match ops with
+  | [] => []
+  | o :: r =>
+      let '(c', x) := cr_step p sid c o in
+      (x, local c', c_view probe c') :: cr_rows p sid probe c' r
+  end.
+
 (** a case: (profile, signer id, probe keys), a common prefix of requests with the rows
     observed on the three stores, and alternative last requests, each run from the state the
     prefix leads to *)
-Definition kvv_alt : Type := op * mrow * drow * crow.
+Definition kvv_alt : Type := op * mrow * drow * crow * crow.
 Definition kvv_case : Type :=
-  (profile * value * list key) * list op * (list mrow * list drow * list crow) * list kvv_alt.
+  (profile * value * list key) * list op * (list mrow * list drow * list crow * list crow) * list kvv_alt.
 
 Definition alt_model (p : profile) (sid : value) (probe : list key)
-  (s : store) (d : disk) (c : cloud) (o : op) : mrow * drow * crow :=
+  (s : store) (d : disk) (c cr : cloud) (o : op) : mrow * drow * crow * crow :=
   let '(s', xm) := m_step p s o in
   let '(d', xd) := d_step p d o in
   let '(c', xc) := c_step p sid c o in
-  ((xm, s'), (xd, table d', d_view probe d'), (xc, local c', c_view probe c')).
+  let '(r', xr) := cr_step p sid cr o in
+  ((xm, s'), (xd, table d', d_view probe d'), (xc, local c', c_view probe c'),
+   (xr, local r', c_view probe r')).
 
 Definition kvv_model (c : kvv_case)
-  : (list mrow * list drow * list crow) * list (mrow * drow * crow) :=
+  : (list mrow * list drow * list crow * list crow) * list (mrow * drow * crow * crow) :=
   let '((p, sid, probe), ops, _, alts) := c in
   let s := m_run p ops in
   let d := d_run p ops in
   let cl := c_run p sid ops in
-  ((m_rows p [] ops, d_rows p probe d_init ops, c_rows true p sid probe c_init ops),
-   map (fun a => alt_model p sid probe s d cl (fst (fst (fst a)))) alts).
+  let cr := cr_run p sid ops in
+  ((m_rows p [] ops, d_rows p probe d_init ops, c_rows true p sid probe c_init ops,
+    cr_rows p sid probe c_init ops),
+   map (fun a => alt_model p sid probe s d cl cr (fst (fst (fst (fst a))))) alts).
+
+Definition alt_obs (a : kvv_alt) : mrow * drow * crow * crow :=
+  (snd (fst (fst (fst a))), snd (fst (fst a)), snd (fst a), snd a).
 
 Definition check_kvv (c : kvv_case) : bool :=
   let '(rows, alts) := kvv_model c in
   let '(_, _, obsrows, oalts) := c in
-  beq rows obsrows && beq alts (map (fun a => (snd (fst (fst a)), snd (fst a), snd a)) oalts).
+  beq rows obsrows && beq alts (map alt_obs oalts).
 
-(** per-backend verdicts, for the report of a failing case *)
-Definition diag_kvv (c : kvv_case) : bool * bool * bool :=
+(** per-backend verdicts (memory, redb, cloud on memory, cloud on redb), for the report of a
+    failing case *)
+Definition diag_kvv (c : kvv_case) : bool * bool * bool * bool :=
   let '(rows, alts) := kvv_model c in
   let '(_, _, obsrows, oalts) := c in
-  let '(rm, rd, rc) := rows in
-  let '(om, od, oc) := obsrows in
-  (beq rm om && beq (map (fun a => fst (fst a)) alts) (map (fun a => snd (fst (fst a))) oalts),
-   beq rd od && beq (map (fun a => snd (fst a)) alts) (map (fun a => snd (fst a)) oalts),
-   beq rc oc && beq (map (fun a => snd a) alts) (map (fun a => snd a) oalts)).
+  let '(rm, rd, rc, rr) := rows in
+  let '(om, od, oc, or) := obsrows in
+  let oa := map alt_obs oalts in
+  (beq rm om && beq (map (fun a => fst (fst (fst a))) alts) (map (fun a => fst (fst (fst a))) oa),
+   beq rd od && beq (map (fun a => snd (fst (fst a))) alts) (map (fun a => snd (fst (fst a))) oa),
+   beq rc oc && beq (map (fun a => snd (fst a)) alts) (map (fun a => snd (fst a)) oa),
+   beq rr or && beq (map (fun a => snd a) alts) (map (fun a => snd a) oa)).
